@@ -440,3 +440,114 @@ func argStr(args []*Ex, i int) string {
 	}
 	return "<missing>"
 }
+
+// ruleNoTypedNilError: a nil pointer of a type that implements error, converted to the error interface, is a
+// non-nil error whose methods run on a nil receiver (the handlers' `err.(*cashu.Error)` then reads through
+// nil). Every conversion of a pointer to an error value in the given packages therefore converts a pointer
+// that is never nil: the address of a fresh value, or the result of a module function all of whose returns
+// are such pointers.
+func (c *Ctx) ruleNoTypedNilError(rule string, pkgs []string, min int) {
+	R := c.R
+	errT := types.Universe.Lookup("error").Type().Underlying().(*types.Interface)
+	n := 0
+	for _, fn := range c.P.Funcs {
+		top := EnclosingTop(fn)
+		if top.Pkg == nil || fn.Blocks == nil {
+			continue
+		}
+		in := false
+		for _, p := range pkgs {
+			if c.P.Rel(top.Pkg.Pkg.Path()) == p {
+				in = true
+			}
+		}
+		if !in {
+			continue
+		}
+		for _, b := range fn.Blocks {
+			for _, ins := range b.Instrs {
+				mi, ok := ins.(*ssa.MakeInterface)
+				if !ok {
+					continue
+				}
+				if _, isPtr := mi.X.Type().Underlying().(*types.Pointer); !isPtr || !types.Implements(mi.X.Type(), errT) {
+					continue
+				}
+				if it, ok := mi.Type().Underlying().(*types.Interface); !ok || !types.Identical(it, errT) {
+					continue
+				}
+				n++
+				ok2, why := ptrNeverNil(mi.X, 0)
+				R.Check(rule, c.P.FuncKey(fn), "error value made from "+typeShort(c.P, mi.X.Type())+" <- "+ptrSourceName(mi.X), c.P.InstrPos(mi), ok2,
+					"a pointer converted to error is never nil (a nil pointer inside an error value is a non-nil error)", why)
+			}
+		}
+	}
+	if n < min {
+		R.Unresolved(rule, "pointer-to-error conversions", fmt.Sprintf("%d found, at least %d were confirmed by hand on the reference tree", n, min))
+	}
+}
+
+func ptrNeverNil(v ssa.Value, depth int) (bool, string) {
+	if depth > 3 {
+		return false, "too deep"
+	}
+	switch x := v.(type) {
+	case *ssa.Alloc:
+		return true, ""
+	case *ssa.Const:
+		return false, "the constant nil"
+	case *ssa.Phi:
+		for _, e := range x.Edges {
+			if ok, why := ptrNeverNil(e, depth+1); !ok {
+				return false, why
+			}
+		}
+		return true, ""
+	case *ssa.ChangeType:
+		return ptrNeverNil(x.X, depth)
+	case *ssa.Extract:
+		if call, ok := x.Tuple.(*ssa.Call); ok {
+			return resultNeverNil(call, x.Index, depth)
+		}
+	case *ssa.Call:
+		return resultNeverNil(x, 0, depth)
+	}
+	return false, "not the address of a fresh value or the result of a function that never returns nil"
+}
+
+func resultNeverNil(call *ssa.Call, idx int, depth int) (bool, string) {
+	callee := call.Call.StaticCallee()
+	if callee == nil || callee.Blocks == nil {
+		return false, "result of a call that cannot be read"
+	}
+	for _, r := range Returns(callee) {
+		if idx >= len(r.Results) {
+			return false, "result index"
+		}
+		if ok, why := ptrNeverNil(r.Results[idx], depth+1); !ok {
+			return false, callee.Name() + " can return " + why
+		}
+	}
+	return true, ""
+}
+
+func ptrSourceName(v ssa.Value) string {
+	switch x := v.(type) {
+	case *ssa.Alloc:
+		return "address of a fresh value"
+	case *ssa.Phi:
+		return "one of several values"
+	case *ssa.Extract:
+		if call, ok := x.Tuple.(*ssa.Call); ok {
+			if f := call.Call.StaticCallee(); f != nil {
+				return "result of " + f.Name()
+			}
+		}
+	case *ssa.Call:
+		if f := x.Call.StaticCallee(); f != nil {
+			return "result of " + f.Name()
+		}
+	}
+	return "a value"
+}
